@@ -176,7 +176,7 @@ func graphWritersRule(r *Report, p *Prog, e *Effect, rule string, roots []*ssa.F
 func checkC06(r *Report) {
 	p := loadResolve("", true)
 	pathTrusted(r)
-	r.Explain = "Path rules on the SSA control-flow graph of the npm resolver. C06.a LOOP-ACCOUNT: in the loop that asks the client for matching versions of each requirement, every path through one iteration ends in (*Graph).AddEdge, (*Graph).AddError or a return, so each non-dev, non-peer requirement becomes an edge, a node error, or aborts the resolution. C06.b PAIR: each (*Graph).AddNode in that loop is followed on every continuing path by an AddEdge whose target is the id just created; C06.c GRAPH-WRITERS: nothing reachable from Resolve writes Graph.Nodes/Edges except Graph's own append-only Add* methods; with the root as base case every node is reachable from the root by induction on insertion order. C06.d KNOWN-EMPTY-KEY (deny-list): no slot/alias table of the npm resolver is looked up with a variable on a branch where that variable is known to be the empty string (such a lookup can never hit, so a reservation that protects Node's walk-up lookup would be silently ignored). C06.e DEV-INERT: in regularImports (the filter that decides which requirements of a version enter that loop) a dev requirement is never emitted, so it must not influence what is emitted either: every write to the filter's suppression tables and every append to its result happens on the not-dev side of a HasAttr(dep.Dev) test of the same iteration; otherwise a dev entry could suppress a regular requirement that then gets neither an edge nor an error. Not decided: that the edge target satisfies the requirement, version choice, and the hoisting/shadowing logic as a whole."
+	r.Explain = "Path rules on the SSA control-flow graph of the npm resolver. C06.a LOOP-ACCOUNT: in the loop that asks the client for matching versions of each requirement, every path through one iteration ends in (*Graph).AddEdge, (*Graph).AddError or a return, so each non-dev, non-peer requirement becomes an edge, a node error, or aborts the resolution. C06.b PAIR: each (*Graph).AddNode in that loop is followed on every continuing path by an AddEdge whose target is the id just created; C06.c GRAPH-WRITERS: nothing reachable from Resolve writes Graph.Nodes/Edges except Graph's own append-only Add* methods; with the root as base case every node is reachable from the root by induction on insertion order. C06.d KNOWN-EMPTY-KEY (deny-list): no slot/alias table of the npm resolver is looked up with a variable on a branch where that variable is known to be the empty string (such a lookup can never hit, so a reservation that protects Node's walk-up lookup would be silently ignored). C06.f CLIMB-RESERVES: in the two loops of Resolve that walk up the install tree (p = p.parent), the slot reserved against shadowing (protected / aliasProtected) is that of the level being left, i.e. the map updated belongs to the loop variable itself and not to its parent; otherwise the dependent's own level stays unreserved and a later install can shadow the version its edge points to. C06.e DEV-INERT: in regularImports (the filter that decides which requirements of a version enter that loop) a dev requirement is never emitted, so it must not influence what is emitted either: every write to the filter's suppression tables and every append to its result happens on the not-dev side of a HasAttr(dep.Dev) test of the same iteration; otherwise a dev entry could suppress a regular requirement that then gets neither an edge nor an error. Not decided: that the edge target satisfies the requirement, version choice, and the hoisting/shadowing logic as a whole."
 	fn := p.lookupFn("(*resolve/npm.resolver).Resolve")
 	if fn == nil {
 		r.bad("C06.a/LOOP-ACCOUNT", "npm Resolve", "", "function (*resolve/npm.resolver).Resolve not found")
@@ -194,6 +194,7 @@ func checkC06(r *Report) {
 	graphWritersRule(r, p, e, "C06.c/GRAPH-WRITERS", []*ssa.Function{fn})
 	knownEmptyKeyRule(r, p, "C06.d/KNOWN-EMPTY-KEY", "resolve/npm")
 	devInertRule(r, p, "C06.e/DEV-INERT")
+	climbReservesRule(r, p, "C06.f/CLIMB-RESERVES", fn)
 	r.Stats["loop_blocks"] = len(l.body)
 }
 
@@ -628,4 +629,69 @@ func devInertRule(r *Report, p *Prog, rule string) {
 	}
 	r.floor(rule, "HasAttr(dep.Dev) tests in regularImports", len(guards), 2)
 	r.floor(rule, "table writes and result appends in regularImports", n, 3)
+}
+
+// climbReservesRule: see checkC06 (C06.f).
+func climbReservesRule(r *Report, p *Prog, rule string, fn *ssa.Function) {
+	loops := naturalLoops(fn)
+	fieldName := func(fa *ssa.FieldAddr) string {
+		return fa.X.Type().Underlying().(*types.Pointer).Elem().Underlying().(*types.Struct).Field(fa.Field).Name()
+	}
+	n := 0
+	seen := map[string]int{}
+	for _, b := range fn.Blocks {
+		for _, in := range b.Instrs {
+			mu, ok := in.(*ssa.MapUpdate)
+			if !ok {
+				continue
+			}
+			ld, ok := mu.Map.(*ssa.UnOp)
+			if !ok {
+				continue
+			}
+			fa, ok := ld.X.(*ssa.FieldAddr)
+			if !ok || (fieldName(fa) != "protected" && fieldName(fa) != "aliasProtected") {
+				continue
+			}
+			n++
+			seen[fieldName(fa)]++
+			key := fmt.Sprintf("%s: reservation in %s #%d", fnKey(fn), fieldName(fa), seen[fieldName(fa)])
+			l := innermostLoop(loops, b)
+			if l == nil {
+				r.bad(rule, key, p.pos(mu.Pos()), "a slot is reserved outside the loops that walk up the install tree: not reviewed")
+				continue
+			}
+			// the level whose map is updated
+			isClimbVar := func(v ssa.Value) bool {
+				phi, ok := v.(*ssa.Phi)
+				if !ok || phi.Block() != l.header {
+					return false
+				}
+				for i, e := range phi.Edges {
+					if !l.body[phi.Block().Preds[i]] {
+						continue
+					}
+					if u, ok := e.(*ssa.UnOp); ok {
+						if f2, ok := u.X.(*ssa.FieldAddr); ok && f2.X == ssa.Value(phi) && fieldName(f2) == "parent" {
+							return true
+						}
+					}
+				}
+				return false
+			}
+			switch {
+			case isClimbVar(fa.X):
+				r.ok(rule, key, p.pos(mu.Pos()), "the map updated belongs to the loop variable, the level being left when the loop advances to its parent")
+			default:
+				why := "the map updated does not belong to the variable that walks up the tree"
+				if u, ok := fa.X.(*ssa.UnOp); ok {
+					if f2, ok := u.X.(*ssa.FieldAddr); ok && fieldName(f2) == "parent" && isClimbVar(f2.X) {
+						why = "the slot is reserved on the level climbed to (the parent) instead of the level being left"
+					}
+				}
+				r.bad(rule, key, p.pos(mu.Pos()), why+": the dependent's own level is left unreserved, so a later install can be hoisted into it and shadow the version this edge points to")
+			}
+		}
+	}
+	r.floor(rule, "reservations of protected/aliasProtected slots in Resolve", n, 3)
 }
